@@ -49,6 +49,11 @@ def validate(ctx, trace_path, label):
     lines = ctx.read_trace(trace_path)
     clean = ctx.path("clean_" + label + ".ndjson")
     found, keep = ctx.screen_anomalies(lines, clean, anomaly)
+    if lines and lines[0].get("a") == "World":
+        # the index construction did not yield the specification's world: exchanges / instruments / assets are not where
+        # EngineCore (ExOf, UndOf) says they are, so routing, scope and connectivity by index all refer to other entities
+        ctx.violation("world:layout", "%s [%s]" % (lines[0].get("anomaly"), label), {"scenario": {"init": "Disabled", "steps": []}})
+        return
     for n, d, seg in found:
         # a panic inside Engine::process is attributed to the property whose event kind caused it
         a = seg[-1].get("ev", {}).get("a")
